@@ -31,6 +31,8 @@ func init() {
 			ruleCleanTestsEveryChild(c, "R8b")
 			ruleInterceptorShorthands(c, "R9")
 			ruleRequestPathIsMatched(c, "R10")
+			ruleGroupRejectionUndo(c, "R11")
+			ruleStrictValidated(c, "R12")
 		},
 	})
 }
